@@ -12,8 +12,10 @@
 (* current value of that scalar in P ("every use names the version whose   *)
 (* definition reaches it"); this implies same path, same stores, same      *)
 (* branch targets and same value computed at every instruction, which is   *)
-(* also checked directly.  Indirect branches and intrinsics end the        *)
-(* execution (after their reads are checked).                              *)
+(* also checked directly.  Indirect branches and intrinsics with           *)
+(* undeclared effects end the execution (after their reads are checked);   *)
+(* an intrinsic that declares its outputs gives both programs the same     *)
+(* havoc values for them (new versions in S) and execution goes on.        *)
 (* Checks inside the action are written IF c THEN TRUE ELSE Report(..)     *)
 (* because TLC explores both sides of an action-level disjunction.         *)
 (***************************************************************************)
@@ -135,11 +137,23 @@ Next10 ==
                 last == loc.p = Len(BlockOf(F(p), loc.b).ins)
             IN
             /\ \A j \in 1..Len(OpReads(oS)) : ReadOK(p, OpReads(oS)[j], <<"ins", loc.b, loc.p>>)
-            /\ oP.k \notin {"branch", "intrinsic"}                     \* these end the execution
-            /\ \E rP \in { r \in ExecOp(oP, st.sc, st.mem, PP[p].big) : r.k = "ft" } :
-                 LET envS2 == IF oP.k \in {"assign", "load"}
+            \* indirect branches and intrinsics with undeclared effects end the execution; an
+            \* intrinsic that declares its outputs defines new versions of exactly those scalars:
+            \* both programs receive the same (havoc) values for them and go on
+            /\ oP.k # "branch" /\ (oP.k = "intrinsic" => oP.written.k # "none")
+            /\ \E rP \in ( IF oP.k = "intrinsic"
+                            THEN { [k |-> "ft", mem |-> st.mem,
+                                    sc |-> Havocked(st.sc, HavocNames(oP, st.sc), ScOf(PP[p].havocs[h]))]
+                                   : h \in 1..Len(PP[p].havocs) }
+                            ELSE { r \in ExecOp(oP, st.sc, st.mem, PP[p].big) : r.k = "ft" } ) :
+                 LET wkeys == IF oP.k = "intrinsic"
+                              THEN { Key(oS.written.l[i]) : i \in { i \in 1..Len(oS.written.l) : oS.written.l[i].k = "scalar" } }
+                              ELSE {}
+                     envS2 == IF oP.k \in {"assign", "load"}
                               THEN [k \in DOMAIN eS \cup {Key(oS.dst)} |->
                                       IF k = Key(oS.dst) THEN rP.sc[oP.dst.n] ELSE eS[k]]
+                              ELSE IF oP.k = "intrinsic"
+                              THEN [k \in DOMAIN eS \cup wkeys |-> IF k \in wkeys THEN rP.sc[k[1]] ELSE eS[k]]
                               ELSE eS
                  IN IF ~last THEN /\ st' = [loc |-> [loc EXCEPT !.p = loc.p + 1], sc |-> rP.sc, mem |-> rP.mem]
                                   /\ eS' = envS2
@@ -175,6 +189,11 @@ DefSites(q) ==
   UNION { LET blk == FS(q).blocks[j] IN
           { <<Key(blk.phi[x].out), "phi", blk.i, x>> : x \in 1..Len(blk.phi) }
           \cup { <<Key(blk.ins[x].op.dst), "ins", blk.i, x>> : x \in { y \in 1..Len(blk.ins) : blk.ins[y].op.k \in {"assign", "load"} } }
+          \cup UNION { LET op == blk.ins[x].op IN
+                       IF op.k = "intrinsic" /\ op.written.k # "none"
+                       THEN { <<Key(op.written.l[i]), "ins", blk.i, x>> : i \in { i \in 1..Len(op.written.l) : op.written.l[i].k = "scalar" } }
+                       ELSE {}
+                       : x \in 1..Len(blk.ins) }
           : j \in { j \in 1..Len(FS(q).blocks) : FS(q).blocks[j].i \in ReachB(q) } }
 
 SingleAssignment(q) ==
